@@ -347,7 +347,14 @@ def explore(fn, params, max_paths=64, feas_timeout=10.0, stats=None, max_decisio
         except Exception as e:
             tb = traceback.extract_tb(sys.exc_info()[2])
             where = "%s:%d" % (os.path.basename(tb[-1].filename), tb[-1].lineno) if tb else "?"
-            outcome = 'error: %s: %s at %s' % (type(e).__name__, str(e)[:200], where)
+            last = tb[-1].filename if tb else ""
+            if last.startswith("/repo/src"):
+                outcome = 'error: %s: %s at %s' % (type(e).__name__, str(e)[:200], where)
+            elif any(f.filename.startswith("/repo/src") for f in tb):
+                outcome = 'unmodelled: %s: %s at %s (raised inside the symbolic layer / a library)' % (
+                    type(e).__name__, str(e)[:200], where)
+            else:
+                outcome = 'harness-bug: %s: %s at %s' % (type(e).__name__, str(e)[:200], where)
         for alt in c.pending:
             stack.append(alt)
         npaths += 1
